@@ -16,7 +16,7 @@ RULE = ('ops = {zero, fire, fire-extra, fire+danger-space, failing zero} x calcu
         'ammunition, drag models, atmosphere and wind objects; C raises a range error, E cannot be zeroed) + construct ops (new calculators, multi-BC models from the '
         'module-level table and from a live model\'s points, new atmosphere, new shot) + in-place edits of argument objects between computations (wind until-distances swapped, segment appended to a shared list, muzzle velocity changed), for which the reference is a world BUILT from the edited values; history cells: every history of depth <= d (quick 2, thorough 3), the last transition of '
         'each is compared with the same op in a fresh world in which only the weapon zero elevations were replayed, and every argument object is snapshotted before/after; '
-        'closure: BFS over the full-state fingerprint with a sub-alphabet whose state space is finite; chain: 200 repetitions of a 4-op cycle on long-lived calculators; '
+        'sandwich: every history [computation, in-place edit, computation on a shot using the edited object] on one long-lived calculator (2016 histories); closure: BFS over the full-state fingerprint with a sub-alphabet whose state space is finite; chain: 200 repetitions of a 4-op cycle on long-lived calculators; '
         'schedule cells: bodies {fire||fire, fire||zero, fire||danger, zero||zero, fire||fire||fire} on shared ammo/atmo/winds, every schedule with <= p pre-emptions '
         '(quick 1, thorough 2) at function-entry points; non-trivial = history whose ops share an object / schedule with >= 1 pre-emption')
 ASSUMPTIONS = ['scheduling points are entries of Python functions defined in the library (CPython may switch between any two bytecodes); the shared-write monitor reports 0 points '
@@ -26,7 +26,7 @@ ASSUMPTIONS = ['scheduling points are entries of Python functions defined in the
 LEVEL_TEXT = ('History and schedule properties have no fixed expected value; every transition of every history up to the bound, every reachable state of the closure alphabet and '
               'every schedule up to the pre-emption bound is compared with a fresh-world / solo run of the same operation on the real code.')
 
-BUDGETS = {'level': 900, 'histories': 600, 'expand': 600, 'monitor': 600, 'free_running': 900, 'chain': 900}
+BUDGETS = {'sandwich': 600, 'level': 900, 'histories': 600, 'expand': 600, 'monitor': 600, 'free_running': 900, 'chain': 900}
 CFG1 = {'max_calc_step_size_feet': 0.25, 'cGravityConstant': -30.0, 'cMaximumDrop': -500.0, 'cMaxIterations': 2}     # K1 zeroes A, D, F, G; B and C end in ZeroFindingError; H in RangeError
 SHOTS = 'ABCDEFGH'
 
@@ -55,7 +55,7 @@ def world(z1=None, z2=None, edits=()):
          'C': pb.Shot(W1, pb.Ammo(dmA, U.FPS(100)), relative_angle=U.Degree(30)),    # raises RangeError
          'D': pb.Shot(W1, pb.Ammo(dmB, U.FPS(2400)), winds=[pb.Wind(U.MPH(20), U.Degree(90))] if 'defwindD' in edits else None),
          'E': pb.Shot(W2, pb.Ammo(dmA, U.FPS(30)), atmo=atm),                         # below the minimum velocity: cannot be zeroed
-         'F': pb.Shot(W2, ammoA, atmo=atm, winds=windsA),                            # shares Ammo and the winds list with A
+         'F': pb.Shot(W2, ammoA, atmo=atm, winds=windsA, cant_angle=U.Degree(25)),   # shares Ammo and the winds list with A; the only canted rifle
          'G': pb.Shot(W1, pb.Ammo(dmC, U.FPS(2600 if 'mvG' not in edits else 2400))),  # bullet without dimensions from the twisted barrel W1
          # steeply downward: ends at the altitude floor with the default configuration and at the drop limit with K1's (every limit of every
          # configuration is reached by some shot: velocity C/E, altitude and drop H)
@@ -163,13 +163,14 @@ _MEMO = {}
 def reference(op, z1, z2, swapped_d, edits=()):
     key = (tuple(op), None if z1 is None else bits(z1), None if z2 is None else bits(z2), swapped_d, tuple(sorted(edits)))
     if key not in _MEMO:
-        w = world(z1, z2, tuple(sorted(edits)))
-        if swapped_d:
-            run(['new_shot', 'D'], w)
-        rop = list(op)
-        if rop[0] in ('zero', 'zerofar', 'fire', 'firex', 'danger'):
-            rop[1] = REF_OF[rop[1]]     # the reference uses a brand-new calculator of the same configuration
-        _MEMO[key] = run(rop, w)
+        with H.pristine():        # fresh objects AND the library's module state as imported; the live module state is put back afterwards
+            w = world(z1, z2, tuple(sorted(edits)))
+            if swapped_d:
+                run(['new_shot', 'D'], w)
+            rop = list(op)
+            if rop[0] in ('zero', 'zerofar', 'fire', 'firex', 'danger'):
+                rop[1] = REF_OF[rop[1]]     # the reference uses a brand-new calculator of the same configuration
+            _MEMO[key] = run(rop, w)
     return _MEMO[key]
 
 
@@ -263,6 +264,7 @@ def histories(cell):
     outcomes = set()
     for tail in itertools.product(range(len(ops)), repeat=depth - len(prefix)):
         h = [ops[i] for i in prefix] + [ops[i] for i in tail]
+        H.restore_pristine()
         w = world()
         swapped = False
         for op in h[:-1]:
@@ -343,7 +345,36 @@ def expand(cell):
     return {'v': out, 'n': len(ops), 'transitions': len(ops), 'traces': len(ops), 'succ': succ, 'nt': [alpha, history] if len(history) >= 2 else None}
 
 
-PARTS = {'histories': histories, 'chain': chain, 'expand': expand}
+AFFECTED = {'swapB': 'B', 'appendA': 'AF', 'mvG': 'G', 'bcA': 'ACFH', 'defwindD': 'D'}
+
+
+def sandwich(cell):
+    """compute - edit an argument in place - compute again with the SAME calculator: every history [op1, edit e, op3] with op1 any computation of
+    calculator k and op3 any computation of k on a shot that uses the edited object (state derived from an argument at first use and keyed by
+    object identity goes stale here; the depth-3 histories of the thorough tier contain these, the quick tier gets them as a family of their own)"""
+    e, k, k1 = cell
+    out = []
+    n = 0
+    outcomes = set()
+    kinds = ('zero', 'fire', 'firex', 'danger')
+    for s1, k3, s3 in itertools.product('ABCDFGH', kinds, AFFECTED[e]):
+        h = [[k1, k, s1], ['edit', e], [k3, k, s3]]
+        H.restore_pristine()
+        w = world()
+        for op in h[:-1]:
+            run(op, w)
+        got, msgs = transition(w, h[-1], f'after {h[:-1]}', False)
+        n += 1
+        outcomes.add(got[0])
+        for m in msgs:
+            if len(out) < 3:
+                out.append({'msg': m, 'key': None, 'history': h})
+        if len(out) >= 3:
+            break
+    return {'v': out, 'n': n, 'states': n, 'transitions': n, 'traces': n, 'nt': cell, 'obs': sorted(outcomes)}
+
+
+PARTS = {'histories': histories, 'chain': chain, 'expand': expand, 'sandwich': sandwich}
 from mc.checks import c10_sched as _sched  # noqa: E402
 PARTS.update(_sched.PARTS)
 
@@ -401,4 +432,5 @@ def plan(tier):
            [[ix(['fire', 'K1', 'F']), ix(['danger', 'K1', 'A']), ix(['zerofar', 'K1', 'E']), ix(['new_multibc_from', 'A'])], reps],
            [[ix(['firex', 'K0', 'D']), ix(['zero', 'K1', 'D']), ix(['fire', 'K0', 'D']), ix(['new_shot', 'D'])], reps],
            [[ix(['danger', 'K0', 'F']), ix(['zero', 'fresh', 'A']), ix(['fire', 'K0', 'A']), ix(['new_calc', 'K0'])], reps]]
-    return [('histories', hs), ('chain', cyc)]
+    sw = [[e, k, k1] for e in AFFECTED for k in ('K0', 'K1') for k1 in ('zero', 'fire', 'firex', 'danger')]
+    return [('histories', hs), ('chain', cyc), ('sandwich', sw)]
